@@ -1959,6 +1959,24 @@ func (k *Kernel) handleReplayedHeader(
 		}
 	}
 
+	// The hash only covers the hashes of the header's validator sets,
+	// and the signatures below are verified against the header's own validator set.
+	// So that set must be the one we are voting with at this height,
+	// and both sets must really hash to the values the block hash covers.
+	if !header.ValidatorSet.Equal(s.Voting.ValidatorSet) {
+		return tmelink.ReplayedHeaderValidationError{
+			Err: fmt.Errorf(
+				"replayed header's validator set (%x) is not the validator set for height %d (%x)",
+				header.ValidatorSet.PubKeyHash, h, s.Voting.ValidatorSet.PubKeyHash,
+			),
+		}
+	}
+	if !header.ValidatorSet.MatchesHashes(k.hashScheme) || !header.NextValidatorSet.MatchesHashes(k.hashScheme) {
+		return tmelink.ReplayedHeaderValidationError{
+			Err: errors.New("replayed header's validator sets do not match their hashes"),
+		}
+	}
+
 	// The hash checks out, but we need to ensure that every signature we have is valid.
 	// We must be pessimistic about the validity,
 	// so we will work with a clone of the existing precommit proofs, if we have any.
